@@ -305,8 +305,9 @@ def proposalLoop : Nat → Chain → Chain
     let ch' := proposalRound ch
     if countExcluded ch' == countExcluded ch then ch' else proposalLoop fuel ch'
 
-/-- `computeDependenciesAndInclusion` (after reorder) -/
-def computeInclusion (ti : TyInfo) (funcs : List CP) (cannot0 : List Nat := []) : Except IncErr Chain :=
+/-- `computeDependenciesAndInclusion` (after reorder) up to the final recomputation of the flows
+    over the survivors (include.go:194-212); what is left is the final validation -/
+def inclusionBeforeFinal (ti : TyInfo) (funcs : List CP) (cannot0 : List Nat := []) : Except IncErr Chain :=
   let initPos := (funcs.zip (List.range funcs.length)).findSome? fun (c, i) => if c.cls == .initFunc then some i else none
   let ch := initState funcs cannot0
   let ch := providesReturns ti ch initPos
@@ -319,7 +320,13 @@ def computeInclusion (ti : TyInfo) (funcs : List CP) (cannot0 : List Nat := []) 
     let ch := eliminateUnused (n * n + n + 8) (List.range n) ch
     let ch := proposalLoop (n + 1) ch
     let ch := ch.map fun f => { f with cannot := f.excluded }
-    let ch := providesReturns ti ch initPos
+    .ok (providesReturns ti ch initPos)
+
+/-- `computeDependenciesAndInclusion` (after reorder) -/
+def computeInclusion (ti : TyInfo) (funcs : List CP) (cannot0 : List Nat := []) : Except IncErr Chain :=
+  match inclusionBeforeFinal ti funcs cannot0 with
+  | .error e => .error e
+  | .ok ch =>
     match validate true ch with
     | .error _ => .error .internal
     | .ok ch => .ok ch
